@@ -164,3 +164,14 @@ fn k_reduce32() {
     assert!(0 <= f && f < Q);
     assert!((f as i64 - a as i64).rem_euclid(QL) == 0);
 }
+
+/// mont_reduce: |r| < q and the sharp bound a - r*2^32 in [-2^31 q, (2^31-1) q] on the whole documented domain (no modulo)
+#[kani::proof]
+fn k_mont_reduce_sharp() {
+    let a: i64 = kani::any();
+    kani::assume(a >= -17_996_808_479_301_632 && a <= 17_996_808_470_921_215);
+    let r = mont_reduce(a);
+    assert!(-Q < r && r < Q);
+    let d = (a as i128) - ((r as i128) << 32);
+    assert!(d >= -(2_147_483_648i128 * QL as i128) && d <= 2_147_483_647i128 * QL as i128);
+}
